@@ -1,1 +1,133 @@
-//! Verification wrappers for this component (data-only re-exports of crate-private items).
+//! Verification wrappers for the commit log (data-only re-exports of crate-private items).
+//!
+//! `Wal`, `Reader` and `repair_corrupted_wal_segment` are `pub(crate)`; the wrappers below call them unchanged and hand back plain
+//! bytes / integers / strings. Nothing here adds behaviour of its own.
+
+use std::fs::File;
+use std::path::Path;
+
+use crate::wal::manager::Wal;
+use crate::wal::reader::Reader;
+use crate::wal::{CompressionType, Error as WalError, Options};
+
+pub const BLOCK_SIZE: usize = crate::wal::BLOCK_SIZE;
+pub const HEADER_SIZE: usize = crate::wal::HEADER_SIZE;
+
+/// How a read of one segment ended.
+#[derive(Debug, Clone, PartialEq, Eq)]
+pub enum ReadEnd {
+	/// `Error::IO(UnexpectedEof)`: the reader's end-of-log.
+	Eof,
+	/// `Error::Corruption`: offset and message as reported.
+	Corruption {
+		offset: u64,
+		message: String,
+	},
+	/// Any other error of `Reader::read`.
+	Other(String),
+}
+
+/// Everything `Reader::read` returned for one segment file, in order.
+#[derive(Debug, Clone)]
+pub struct ReadOutcome {
+	pub records: Vec<Vec<u8>>,
+	/// The offset `Reader::read` reported with each record.
+	pub offsets: Vec<u64>,
+	pub end: ReadEnd,
+}
+
+/// Reads one segment file with `Reader::new(file)` until the first error.
+pub fn read_segment(path: &Path) -> std::io::Result<ReadOutcome> {
+	let file = File::open(path)?;
+	let mut reader = Reader::new(file);
+	let mut records = Vec::new();
+	let mut offsets = Vec::new();
+	loop {
+		match reader.read() {
+			Ok((data, off)) => {
+				records.push(data.to_vec());
+				offsets.push(off);
+			}
+			Err(WalError::IO(e)) if e.kind() == std::io::ErrorKind::UnexpectedEof => {
+				return Ok(ReadOutcome {
+					records,
+					offsets,
+					end: ReadEnd::Eof,
+				});
+			}
+			Err(WalError::Corruption(c)) => {
+				return Ok(ReadOutcome {
+					records,
+					offsets,
+					end: ReadEnd::Corruption {
+						offset: c.offset,
+						message: c.to_string(),
+					},
+				});
+			}
+			Err(e) => {
+				return Ok(ReadOutcome {
+					records,
+					offsets,
+					end: ReadEnd::Other(e.to_string()),
+				});
+			}
+		}
+	}
+}
+
+/// `repair_corrupted_wal_segment(wal_dir, segment_id)`.
+pub fn repair_segment(wal_dir: &Path, segment_id: usize) -> Result<(), String> {
+	crate::wal::recovery::repair_corrupted_wal_segment(wal_dir, segment_id).map_err(|e| e.to_string())
+}
+
+fn options(lz4: bool) -> Options {
+	let mut o = Options::default();
+	if lz4 {
+		o = o.with_compression(CompressionType::Lz4);
+	}
+	o
+}
+
+/// An open `Wal` (the writer side of the commit log).
+pub struct WalHandle {
+	wal: Wal,
+}
+
+impl WalHandle {
+	/// `Wal::open(dir, Options::default() [with LZ4])`.
+	pub fn open(dir: &Path, lz4: bool) -> Result<Self, String> {
+		Wal::open(dir, options(lz4)).map(|wal| WalHandle { wal }).map_err(|e| e.to_string())
+	}
+
+	/// `Wal::open_with_min_log_number` as `CoreInner::new` calls it.
+	pub fn open_with_min_log_number(dir: &Path, min: u64, lz4: bool) -> Result<Self, String> {
+		Wal::open_with_min_log_number(dir, min, options(lz4))
+			.map(|wal| WalHandle { wal })
+			.map_err(|e| e.to_string())
+	}
+
+	pub fn append(&mut self, rec: &[u8]) -> Result<(), String> {
+		self.wal.append(rec).map(|_| ()).map_err(|e| e.to_string())
+	}
+
+	pub fn sync(&mut self) -> Result<(), String> {
+		self.wal.sync().map_err(|e| e.to_string())
+	}
+
+	pub fn flush(&mut self) -> Result<(), String> {
+		self.wal.flush().map_err(|e| e.to_string())
+	}
+
+	pub fn rotate(&mut self) -> Result<u64, String> {
+		self.wal.rotate().map_err(|e| e.to_string())
+	}
+
+	pub fn close(&mut self) -> Result<(), String> {
+		self.wal.close().map_err(|e| e.to_string())
+	}
+
+	pub fn active_log_number(&self) -> u64 {
+		self.wal.get_active_log_number()
+	}
+}
